@@ -160,8 +160,10 @@ fn gen_lib(c: &mut Chooser) -> Case {
     let net = c.free(3, "net");
     tags.push(NET_TAGS[net]);
     let focus = SShape { layer: LP[lp].0, purpose: LP[lp].1, geom: variants[v].1.clone(), net: NETS[net].map(|s| s.to_string()) };
-    let second = c.cost(5, "second-shape");
-    tags.push(["second:none", "second:unnamed-same-layer-purpose", "second:named-same-layer-other-purpose", "second:named-other-layer-same-place", "second:named-listed-first"][second]);
+    // options 5..=20: a named 2x2 neighbour on the same layer and purpose, one unit outside the focus shape's (flush)
+    // bounding box on each of its four sides, level with the shape's first / last listed point, listed before / after
+    let second = c.cost(21, "second-shape");
+    tags.push(["second:none", "second:unnamed-same-layer-purpose", "second:named-same-layer-other-purpose", "second:named-other-layer-same-place", "second:named-listed-first", "second:neighbour-one-unit-away"][second.min(5)]);
     let far = SGeom::Rect((300, 300), (340, 330));
     let leaf = cells[n - 1].layout.as_mut().unwrap();
     match second {
@@ -180,6 +182,42 @@ fn gen_lib(c: &mut Chooser) -> Case {
         4 => {
             leaf.shapes.push(SShape { layer: LP[lp].0, purpose: LP[lp].1, geom: far, net: Some("Other".into()) });
             leaf.shapes.push(focus);
+        }
+        k if k >= 5 => {
+            let (side, anchor_last, first) = ((k - 5) % 4, ((k - 5) / 4) % 2 == 1, (k - 5) / 8 == 1);
+            let (pts, half): (Vec<(i64, i64)>, i64) = match &focus.geom {
+                SGeom::Rect(a, b) => (vec![*a, *b], 0),
+                SGeom::Poly(v) => (v.clone(), 0),
+                SGeom::Path(v, w) => (v.clone(), (*w + 1) / 2),
+            };
+            // flush bounding box: a path is widened sideways only (end-points are not extended)
+            let (mut x0, mut y0, mut x1, mut y1) = (i64::MAX, i64::MAX, i64::MIN, i64::MIN);
+            if half == 0 {
+                for p in &pts {
+                    (x0, y0, x1, y1) = (x0.min(p.0), y0.min(p.1), x1.max(p.0), y1.max(p.1));
+                }
+            } else {
+                for w in pts.windows(2) {
+                    let (a, b) = (w[0], w[1]);
+                    let (hx, hy) = if a.1 == b.1 { (0, half) } else if a.0 == b.0 { (half, 0) } else { (half, half) };
+                    (x0, y0, x1, y1) = (x0.min(a.0.min(b.0) - hx), y0.min(a.1.min(b.1) - hy), x1.max(a.0.max(b.0) + hx), y1.max(a.1.max(b.1) + hy));
+                }
+            }
+            let anchor = if anchor_last { *pts.last().unwrap() } else { pts[0] };
+            let nb = match side {
+                0 => SGeom::Rect((x0 - 3, anchor.1 - 1), (x0 - 1, anchor.1 + 1)),
+                1 => SGeom::Rect((x1 + 1, anchor.1 - 1), (x1 + 3, anchor.1 + 1)),
+                2 => SGeom::Rect((anchor.0 - 1, y0 - 3), (anchor.0 + 1, y0 - 1)),
+                _ => SGeom::Rect((anchor.0 - 1, y1 + 1), (anchor.0 + 1, y1 + 3)),
+            };
+            let nbs = SShape { layer: LP[lp].0, purpose: LP[lp].1, geom: nb, net: Some("Nbr".into()) };
+            if first {
+                leaf.shapes.push(nbs);
+                leaf.shapes.push(focus);
+            } else {
+                leaf.shapes.push(focus);
+                leaf.shapes.push(nbs);
+            }
         }
         _ => leaf.shapes.push(focus),
     }
@@ -430,7 +468,7 @@ impl CaseDriver for C07Lib {
     fn describe(&self, tier: Tier) -> Describe {
         Describe {
             rule: format!(
-                "raw libraries of 1..3 cells (chain c0 -> c1 -> c2) listed in every order; every instance in all 8 orientations (free); the last cell holds a focus shape: family {FAMILIES:?} (free) x (layer, purpose) in 2 layers x 2 purposes (free) x net absent / lower-case / Mixed-Case (free); costed (deviation bound {}): shape variant within the family (both corner orders and mixed corners of rectangles, start vertex and direction of polygons, 1..3 segment paths, widths 2/3/4), units Nano/Micro/Angstrom/Pico, instance offsets {LOCS:?}, angle None vs Some(0), a second placement, the top also placing the leaf, named non-leaf shape, a second shape (unnamed same layer+purpose / named same layer other purpose / named other layer same place / named listed first), unit-wide rectangles at negative coordinates, width-1 / backwards-drawn / ring / out-and-back paths (variants of the families), a blank cell (unreferenced / instantiated), two cells whose names differ only in letter case. Non-trivial = has an instance or a net.",
+                "raw libraries of 1..3 cells (chain c0 -> c1 -> c2) listed in every order; every instance in all 8 orientations (free); the last cell holds a focus shape: family {FAMILIES:?} (free) x (layer, purpose) in 2 layers x 2 purposes (free) x net absent / lower-case / Mixed-Case (free); costed (deviation bound {}): shape variant within the family (both corner orders and mixed corners of rectangles, start vertex and direction of polygons, 1..3 segment paths, widths 2/3/4), units Nano/Micro/Angstrom/Pico, instance offsets {LOCS:?}, angle None vs Some(0), a second placement, the top also placing the leaf, named non-leaf shape, a second shape (unnamed same layer+purpose / named same layer other purpose / named other layer same place / named listed first / a named 2x2 neighbour one unit outside the shape's flush bounding box on each side, level with its first or last point, listed before or after), unit-wide rectangles at negative coordinates, width-1 / backwards-drawn / ring / out-and-back paths (variants of the families), a blank cell (unreferenced / instantiated), two cells whose names differ only in letter case. Non-trivial = has an instance or a net.",
                 self.bound(tier)
             ),
             assumptions: assumptions(),
@@ -468,7 +506,7 @@ impl CaseDriver for C07Lib {
         require_tags(stats, &NET_TAGS)?;
         require_tags(stats, &LP_TAGS)?;
         require_tags(stats, &UNIT_TAGS)?;
-        require_tags(stats, &["cells:1", "cells:2", "cells:3", "inst:angle-Some(0)", "inst:second-placement", "inst:shared-leaf", "second:named-same-layer-other-purpose", "second:named-other-layer-same-place", "second:named-listed-first", "blank:unreferenced", "blank:instantiated", "names:case-variants", "gds:label-inside-its-shape"])?;
+        require_tags(stats, &["cells:1", "cells:2", "cells:3", "inst:angle-Some(0)", "inst:second-placement", "inst:shared-leaf", "second:named-same-layer-other-purpose", "second:named-other-layer-same-place", "second:named-listed-first", "second:neighbour-one-unit-away", "blank:unreferenced", "blank:instantiated", "names:case-variants", "gds:label-inside-its-shape"])?;
         require_outcomes(stats, &["ok"])
     }
 }
